@@ -260,6 +260,8 @@ impl<const D: usize> GlobalTopologyModel<D> for ToroidalModel<D> {
                 return Err(GlobalTopologyModelError::NonFiniteCoordinate { axis, value: coord });
             }
             let wrapped = coord.rem_euclid(period);
+            // `rem_euclid` can round up to `period` for tiny negative inputs; keep `[0, L)` half-open.
+            let wrapped = if wrapped >= period { 0.0 } else { wrapped };
             *coord_ref = <T as NumCast>::from(wrapped).ok_or(
                 GlobalTopologyModelError::ScalarConversion {
                     axis,
